@@ -220,7 +220,10 @@ Ambiguous production number prediction
                 break;
             }
         }
-        Ok(result_union.into_inner())
+        let mut result = result_union.into_inner();
+        // The union needs as many lookahead tokens as the deeper one of both automata
+        result.k = std::cmp::max(result.k, other.k);
+        Ok(result)
     }
 
     fn new_state(&mut self) -> StateIndex {
